@@ -67,6 +67,19 @@ CHECKS = {
         note='Trusted: Lean kernel; standard axioms; CPython evaluation order of the emitted expression (conditional expression, lambda, try/except) is modelled; '
              'operators in the fragment are fully parenthesised (precedence is C01); the AST extraction of the error list.',
         technique='Lean 4 proof (structural induction over formulas) over hand model + generated error table + differential correspondence', design='5/C13'),
+    'C11': dict(
+        text='Lean 4 theorems over the model of _flatten_list/_only_numeric_list/_sum/_average/_min/_max/_count/_count_blank/_and/_or and the translator glue: '
+             'flattening is row-major concatenation (flatten_append, flatten_area); the cells folded are exactly the numeric ones, once per mention, in order '
+             '(numericCells_sublist/_mem/_length; text, booleans, blanks ignored); SUM = exact sum of the numeric cells, an int when all are ints else the double '
+             'of that exact value, whenever no summand/partial sum needs rounding (sum_spec); SUM(X,Y) = SUM(X)+SUM(Y) (sum_split); AVERAGE = the exact sum / count '
+             'rounded once (average_spec); MIN/MAX are elements bounding all numeric cells under exact int/float order (min_spec, max_spec); COUNT = number of '
+             'numeric cells (count_spec); COUNTBLANK = blank or empty-text cells (countblank_spec); AND/OR = all/any truthy (and_spec, or_spec). '
+             'Tie B: two-sheet workbooks with planted contents x areas of every shape / other sheets / scalars / both separators through the real translator, '
+             'the helpers of both runtime copies on the same argument lists, and the split law on the real code.',
+        note='Trusted: Lean kernel; standard axioms; hand model tied by correspondence; sum() is modelled as a left fold and compared only where every partial sum is exact '
+             '(CPython >= 3.12 compensates float sums; the algorithms agree there; predicate allExact is evaluated by the driver per case); dates and error values inside '
+             'areas, text/boolean scalar arguments of SUM: compared with the model, not with the spec (the statement is silent).',
+        technique='Lean 4 proof over hand model (exact rationals for doubles) + differential correspondence + algebraic law on the real code', design='5/C11'),
 }
 
 WIP = set()   # built, proofs in progress: not claimed until green
